@@ -520,4 +520,142 @@ func checkVerifiedSignatures(cx *CheckCtx, sp *ssa.Package) {
 	}
 	cx.count("verified_stores", n)
 	cx.floor("verified_stores", 1)
+	// the collection loop tolerates members whose record cannot be read
+	nTol := 0
+	seenLoop := map[*ssa.BasicBlock]bool{}
+	for _, fn := range allFuncs(sp) {
+		for _, b := range fn.Blocks {
+			for _, ins := range b.Instrs {
+				mu, ok := ins.(*ssa.MapUpdate)
+				if !ok || !isBytes(mu.Value.Type()) {
+					continue
+				}
+				verified := false
+				for _, b2 := range fn.Blocks {
+					for _, ins2 := range b2.Instrs {
+						if c, ok := ins2.(*ssa.Call); ok && isBoolType(c.Type()) {
+							name := ""
+							if c.Common().Method != nil {
+								name = c.Common().Method.Name()
+							} else if cal := c.Common().StaticCallee(); cal != nil {
+								name = cal.Name()
+							}
+							if strings.HasPrefix(name, "Verify") {
+								for _, a := range c.Common().Args {
+									if sameVal(a, mu.Value) {
+										verified = true
+									}
+								}
+							}
+						}
+					}
+				}
+				hdr := innermostLoop(b)
+				if !verified || hdr == nil || seenLoop[hdr] {
+					continue
+				}
+				seenLoop[hdr] = true
+				in := loopBlocks(hdr)
+				// from blk, can the walk leave the loop (or the function) before coming round to the header?
+				leaves := func(start *ssa.BasicBlock) (leave, round bool) {
+					seen := map[*ssa.BasicBlock]bool{}
+					work := []*ssa.BasicBlock{start}
+					for len(work) > 0 {
+						x := work[len(work)-1]
+						work = work[:len(work)-1]
+						if x == hdr {
+							round = true
+							continue
+						}
+						if seen[x] {
+							continue
+						}
+						seen[x] = true
+						if !in[x] {
+							leave = true
+							continue
+						}
+						if len(x.Succs) == 0 {
+							leave = true
+						}
+						work = append(work, x.Succs...)
+					}
+					return
+				}
+				for _, tb := range fn.Blocks {
+					if !in[tb] || innermostLoop(tb) != hdr {
+						continue
+					}
+					ifi, ok := tb.Instrs[len(tb.Instrs)-1].(*ssa.If)
+					if !ok {
+						continue
+					}
+					bo, ok := ifi.Cond.(*ssa.BinOp)
+					if !ok || (bo.Op != token.NEQ && bo.Op != token.EQL) {
+						continue
+					}
+					var ev ssa.Value
+					if c, isC := bo.Y.(*ssa.Const); isC && c.IsNil() && isErrorType(bo.X.Type()) {
+						ev = bo.X
+					} else if c, isC := bo.X.(*ssa.Const); isC && c.IsNil() && isErrorType(bo.Y.Type()) {
+						ev = bo.Y
+					}
+					if ev == nil {
+						continue
+					}
+					// only errors produced inside this loop (this member's record), not those of the setup before it
+					if evi, isIns := ev.(ssa.Instruction); !isIns || evi.Block() == nil || !in[evi.Block()] {
+						continue
+					}
+					side := 0
+					if bo.Op == token.EQL {
+						side = 1
+					}
+					leave, round := leaves(tb.Succs[side])
+					nTol++
+					cx.decide(!leave && round, "collection-tolerant", fmt.Sprintf("deploy.%s@%s", fn.Name(), w.pos(bo.Pos())), "a member whose record cannot be read or decoded is skipped: the failure side always comes round to the next member", "in the signature-collection loop the failure side of the error test at "+w.pos(bo.Pos())+" can leave the loop instead of going on with the next member: one absent or broken member stops the leader from collecting the signatures of the others, so a majority is no longer enough", w.pos(bo.Pos()))
+				}
+				// the splitter's ok and the verification: their failing side must at least be able to go on
+				for _, tb := range fn.Blocks {
+					if !in[tb] || innermostLoop(tb) != hdr {
+						continue
+					}
+					ifi, ok := tb.Instrs[len(tb.Instrs)-1].(*ssa.If)
+					if !ok {
+						continue
+					}
+					cond := ifi.Cond
+					fail := 1
+					if u, isU := cond.(*ssa.UnOp); isU && u.Op == token.NOT {
+						cond, fail = u.X, 0
+					}
+					isCheck := false
+					if ex, isEx := cond.(*ssa.Extract); isEx && isBoolType(ex.Type()) {
+						if mex, isM := mu.Value.(*ssa.Extract); isM && mex.Tuple == ex.Tuple {
+							isCheck = true
+						}
+					}
+					if c, isC := cond.(*ssa.Call); isC {
+						for _, a := range c.Common().Args {
+							if sameVal(a, mu.Value) {
+								isCheck = true
+							}
+						}
+					}
+					if !isCheck {
+						continue
+					}
+					_, round := leaves(tb.Succs[fail])
+					nTol++
+					cx.decide(round, "collection-tolerant", fmt.Sprintf("deploy.%s@%s/invalid", fn.Name(), blockPos(w, tb)), "a record that fails its check does not end the scan: the failing side can go on with the next member", "in the signature-collection loop the failing side of the check at "+blockPos(w, tb)+" never goes on with the next member: one stale or invalid record stops the collection", w.pos(ifi.Cond.Pos()))
+				}
+			}
+		}
+	}
+	cx.count("collection_failure_sides", nTol)
+	cx.floor("collection_failure_sides", 2)
+}
+
+func isErrorType(t types.Type) bool {
+	return types.Identical(t, types.Universe.Lookup("error").Type())
 }
